@@ -64,6 +64,11 @@ FnProgs == {
     NCall(NVar("keys"), <<NArray(<<O, NObject(<< Pair(NStr(<<122>>), NNum(IntV(9))) >>), O>>)>>),
     NObject(<< Pair(NStr(ka), PA(<<NName(ka)>>)), Pair(NStr(<<110>>), PA(<<NName(<<110, 111>>)>>)) >>),
     NCall(NVar("type"), <<O>>),
+    \* later objects take precedence member by member: a nested object is replaced, not merged into
+    NCall(NVar("merge"), <<NArray(<<O, NObject(<< Pair(NStr(ka), NObject(<< Pair(NStr(kb), NNum(IntV(9))) >>)) >>)>>)>>),
+    NCall(NVar("merge"), <<NArray(<<NObject(<< Pair(NStr(ka), NObject(<< Pair(NStr(kb), NNum(IntV(9))) >>)) >>), O>>)>>),
+    NCall(NVar("merge"), <<NArray(<<NObject(<< Pair(NStr(kc), O) >>), NObject(<< Pair(NStr(kc), NObject(<< Pair(NStr(<<122>>), NNum(IntV(9))) >>)) >>)>>)>>),
+    NCall(NVar("merge"), <<NArray(<<O, O>>)>>),
     \* arrays of objects, with empty objects and non-objects among them
     NCall(NVar("spread"), <<NArray(<<O, NObject(<<>>), O>>)>>), NCall(NVar("spread"), <<NArray(<<NObject(<<>>), O>>)>>), NCall(NVar("spread"), <<NArray(<<NObject(<<>>)>>)>>),
     NCall(NVar("count"), <<NCall(NVar("spread"), <<NArray(<<NObject(<<>>), O, NObject(<<>>)>>)>>)>>),
